@@ -1,4 +1,4 @@
 From Coq Require Import Extraction ExtrOcamlBasic.
 From OC Require Import Base.Bytes Model.P2Pure Model.Proto2 Model.P2Inst.
 Extraction "model.ml" p2_reconcile p2_apply_eff p2_step p2_init mk_world w_txs w_props w_cfgs w_targets w_rels w_conns w_devs
-  devlog next_index live overlay is_path_below classify observed tstate_rank add_delete_children permute rb_change view.
+  devlog next_index live overlay is_path_below classify observed tstate_rank add_delete_children permute rb_change view candidate candidate_rb resync_payload aview.
